@@ -533,6 +533,7 @@ def gen_cases(rng, tier, boost):
         yield Case(["ref"], ref=bp, **cm)
     for bad in (dict(as_total="x"), dict(calendar="bogus"), dict(max_results="abc")):
         yield Case(["2000"], local_tz=(0, 0), spell_seed=1, **bad)
+    yield Case(["R/P1Y/0001-01-01T00Z"], max_results=4, local_tz=(0, 0), spell_seed=3)     # known finding F20 witness
     # ISO 8601 forms that a lenient strptime would misread through the built-in strptime formats
     for item in ("2004031T204619", "20000228T1234", "2004101T0101", "2004031T204619Z", "1999365T235959", "2000-001T00:00:00",
                  "20000228T12", "2000060T1234", "2000-02-28T12:34", "2000W011T0000", "20001T0101"):
@@ -615,6 +616,35 @@ def extra_checks(res, seed, tier, boost):
             res.violations.append((op, a, got, "the command printed %r, the library computes %r for plan [%s]" % (
                 got[:300], want[:300], plan[:200])))
     engine.set_mode("greg")
+
+
+def _f20(op, a, out, msg):
+    """A recurrence whose printed points reach a negative year with no expanded-year digits: str() of such a point
+    raises OverflowError (TimePoint._get_dump_format), which main() does not turn into an exit message."""
+    import re as _re
+    if out != "TRACEBACK:OverflowError":
+        return False
+    mt = _re.search(r"argv=\[(.*?)\] env=", a[0])
+    if not mt:
+        return False
+    argv = [x.strip().strip("'\"") for x in mt.group(1).split(",")]
+    items = [x for x in argv if x.startswith("R")]
+    if len(items) != 1 or any(x.startswith(("-f", "--print-format", "--format")) for x in argv):
+        return False
+    from metomi.isodatetime.parsers import TimeRecurrenceParser
+    try:
+        rec = TimeRecurrenceParser().parse(items[0])
+        for i, p in enumerate(rec):
+            if p.year is not None and p.year < 0 and not p.num_expanded_year_digits:
+                return True
+            if i >= 20:
+                break
+    except Exception:
+        return False
+    return False
+
+
+KNOWN_PREDICATES = {"recurrence_reaches_negative_year_overflow_traceback": _f20}
 
 
 def normalise(text):
